@@ -6,7 +6,7 @@ C33-DICT — decision table of the dict -> struct / dict -> union converters of 
     mappings with respect to the operations the converter performs on its argument (len, `key in obj`, obj[key] for the
     member keys):   (set of member keys present) x (other keys: none / some).
     Required table:  union  -> returns exactly when one member key is present and there is no other key, with
-                               result.<cname of that member> = obj[<name of that member>]; every other class raises;
+                               result.<field of that member> = obj[<name of that member>]; every other class raises;
                      struct -> returns (every field from its own key) when all member keys are present, raises otherwise.
     Any operation on the mapping outside the modelled ones raises ANALYSIS-ERROR.
 
@@ -228,6 +228,8 @@ class DictInterp:
                 return {'True': True, 'False': False, 'None': None}[e.id]
             if e.id in ('ValueError', 'TypeError', 'KeyError', 'IndexError', 'OverflowError'):
                 return e.id
+            if any(isinstance(n, ast.Name) and n.id == e.id and isinstance(n.ctx, ast.Store) for n in ast.walk(self.fn)):
+                raise Exc('UnboundLocalError')       # a local that is assigned on another path only
             raise AnalysisError('C33-DICT: unbound name %s in the converter' % e.id)
         if isinstance(e, ast.JoinedStr):
             for v in e.values:
@@ -369,7 +371,7 @@ class DictInterp:
         raise AnalysisError('C33-DICT: statement %s is not modelled' % type(s).__name__)
 
 
-def dict_table(text, kind, n):
+def dict_table(text, kind, n, strict_names=False):
     """-> [(present names, extra, outcome, problem or None)] for an n-member struct/union."""
     members = [_O(name='m%d' % i, cname='c%d' % i) for i in range(n)]
     src = expand(text, dict(var_entries=members, funcname='__sa_conv', struct_type='sa_struct_t'))
@@ -392,10 +394,20 @@ def dict_table(text, kind, n):
                     if out[0] != 'return':
                         prob = 'raises %s for a valid mapping' % out[1]
                     else:
-                        want = {cname[p]: Val(p) for p in present}
-                        if out[1] != want:
+                        # the field of member p is addressed by its Cython name or (pending FINDING: union) its C name; it must receive obj[p]
+                        got = {}
+                        for f, v in out[1].items():
+                            owner = [p for p in names if f in (p, cname[p])]
+                            got[owner[0] if owner else f] = v
+                        want = {p: Val(p) for p in present}
+                        if got != want:
                             prob = 'returns %s, required %s (each field from its own key)' % (
                                 {k2: repr(v) for k2, v in sorted(out[1].items())}, {k2: repr(v) for k2, v in sorted(want.items())})
+                        elif strict_names and any(f not in names for f in out[1]):
+                            f = sorted(f for f in out[1] if f not in names)[0]
+                            prob = ('stores %r into result.%s — the C name of the member; the utility is Cython code, where a struct/union field is addressed by its Cython '
+                                    'name (the sibling converter uses {{member.name}}): the generated converter does not compile when a member was declared with a C name of its own'
+                                    % (out[1][f], f))
                 elif kind == 'struct' and extra and len(present) == n:
                     prob = None
                 else:
@@ -450,6 +462,20 @@ def rule_dict(ctx):
                         sec, kind, n, ', '.join(present), ' plus keys that are not members' if extra else '', prob))
     pc = [p for _, _, _, p in dict_table(UNION_BAD, 'union', 2) if p]
     r.positive_control(bool(pc), 'union converter that ignores left-over keys')
+    return r
+
+
+def rule_dict_fields(ctx):
+    # pending finding (FINDING_1.md): FromPyUnionUtility assigns result.{{member.cname}}; NOT registered in run() until the defect is fixed / listed
+    r = Rule('C33-FIELD', 'dict -> struct / union converters address the fields of `result` by the Cython names of the members', floor=2)
+    src = ctx.read(CCONV)
+    for sec, kind in (('FromPyUnionUtility', 'union'), ('FromPyStructUtility', 'struct')):
+        text, line = section(src, sec)
+        r.inst('field:%s' % sec, sample=sec)
+        for present, extra, out, prob in dict_table(text, kind, 1, strict_names=True):
+            if prob and 'C name of the member' in prob:
+                r.violate('CConvert.pyx:%s:field-name' % sec, CCONV, line, '%s (dict -> C %s) with 1 members: a mapping holding {%s} %s' % (sec, kind, ', '.join(present), prob))
+                break
     return r
 
 
@@ -547,6 +573,7 @@ class EncWalk:
         return st
 
     def expr(self, text):
+        text = re.sub(r'"(?:\\.|[^"\\])*"', '__sa_string_literal', text)
         try:
             return cexpr.parse(text)
         except cexpr.ParseError:
@@ -728,7 +755,9 @@ def rule_enc(ctx):
     funcs = []
     for name, decls in cat.decls.items():
         for d in decls:
-            if d.kind == 'func' and d.body and ASCII in d.body and re.search(r'char\s*\*', d.ret or ''):
+            # an encoder: returns char*, depends on the ASCII flag and produces a UTF-8 buffer itself (dispatchers that only forward are not encoders)
+            if d.kind == 'func' and d.body and ASCII in d.body and re.search(r'char\s*\*', d.ret or '') \
+                    and re.search(r'\b(?:%s)\s*\(|"s#"' % '|'.join(UTF8_BUF_CALLS), d.body):
                 funcs.append((name, d))
     if not funcs:
         raise AnalysisError('C33-ENC: no str -> char* helper in Cython/Utility depends on %s any more; adapt the rule' % ASCII)
@@ -736,7 +765,7 @@ def rule_enc(ctx):
         macros = set(re.findall(r'^\s*#\s*(?:el)?if\b(.*)$', d.body, re.M))
         idents = set()
         for c in macros:
-            idents |= set(re.findall(r'[A-Za-z_]\w*', c))
+            idents |= set(re.findall(r'(?<![\w])[A-Za-z_]\w*', c))
         known = {ASCII, UTF8, 'CYTHON_COMPILING_IN_LIMITED_API', '__PYX_LIMITED_VERSION_HEX'}
         if idents - known:
             raise AnalysisError('C33-ENC: %s depends on preprocessor symbols %s the configuration space does not model' % (name, sorted(idents - known)))
